@@ -542,6 +542,10 @@ pub fn c04_snips() -> Vec<Snip> {
             out.push(Snip::owned(format!("pure-read-mutable-after-shadowing-scope:{}", sn), Kind::SPure, format!("{}\nzz :: m", sc.replace("{D}", "m :: 5")), format!("{}\nzz :: k", sc.replace("{D}", "k :: 5"))));
         }
     }
+    // a mutable variable that holds a (pure) function is still a mutable variable
+    out.push(Snip::owned("mutable-function-variable:called".into(), Kind::SPure, "zz :: mfp(1)".into(), "zz :: idp(1)".into()));
+    out.push(Snip::owned("mutable-function-variable:read".into(), Kind::SPure, "zz :: mfp".into(), "zz :: idp".into()));
+    out.push(Snip::owned("mutable-function-variable:captured-local".into(), Kind::S, "lf := pu q: int -> int\n q\n end\nhh :: pu -> int\n lf(1)\n end".into(), "lf :: pu q: int -> int\n q\n end\nhh :: pu -> int\n lf(1)\n end".into()));
     out.push(Snip::owned("repeated-field:impure-call-in-first-value".into(), Kind::SPure, "zz :: P { x: idi(1), x: 0 }".into(), "zz :: P { x: idp(1), x: 0 }".into()));
     out.push(Snip::owned("repeated-field:mutable-read-in-first-value".into(), Kind::SPure, "zz :: P { x: m, x: 0 }".into(), "zz :: P { x: k, x: 0 }".into()));
     for (dn, dm, dc) in decls {
